@@ -39,6 +39,8 @@ pub(crate) mod deflate;
 mod gz;
 pub mod gzi;
 pub mod io;
+#[cfg(all(noodles_verif, feature = "async"))]
+pub mod verif;
 pub mod virtual_position;
 
 pub use self::virtual_position::VirtualPosition;
